@@ -202,3 +202,6 @@ def _offset_window_replay(env, k):
         mod.np = saved[0]
         if saved[1] is not None:
             mod.__dict__['float'] = saved[1]
+
+META['explanation'] += ' constant_window_fp: under the standard rounding model a window of k copies of a symbolic value c reports a variance <= 64 u^2 c^2 (no catastrophic cancellation for data with a large offset); replay = binary64 runs against exact rationals. large_window: concrete window sizes up to 257 (thorough 1000), mean claims around the fill point and both wrap-arounds.'
+META['outside'] = [o for o in META['outside'] if not o.startswith('floating-point rounding')] + ['floating-point rounding of nanmean / nanvar beyond the constant-window bound']
